@@ -184,8 +184,15 @@ func report(c *vcommon.Case, ops []Op, version int, shrinkIt bool) *Result {
 		seen[k.ID] = true
 		c.Known(k.ID, k.Msg, map[string]any{"version": version, "step": k.Step, "ops": opsStrings(ops[:k.Step+1])})
 	}
+	if res.Fail != nil && res.AliasPossible {
+		// only reachable in the dedicated alias group / corpus entries: the generated histories tag every child
+		// value with the child name, so two child tries never have identical content there
+		c.Count("known_K3", 1)
+		c.Known(K3, res.Fail.Class+": "+res.Fail.Msg, map[string]any{"version": version, "step": res.Fail.Step, "ops": opsStrings(ops[:res.Fail.Step+1])})
+		return res
+	}
 	if res.Fail != nil {
-		w := map[string]any{"version": version, "step": res.Fail.Step, "ops": opsStrings(ops[:res.Fail.Step+1])}
+		w := map[string]any{"version": version, "step": res.Fail.Step, "ops": opsStrings(ops[:min(res.Fail.Step+1, len(ops))])}
 		if shrinkIt && shrunk[res.Fail.Class] < 2 {
 			shrunk[res.Fail.Class]++
 			small := shrink(ops, version, res.Fail.Class, isOpen)
@@ -227,6 +234,20 @@ func TestVerifC08(t *testing.T) {
 		e := corpus[c.Idx]
 		res := report(c, e.ops, e.version, false)
 		c.Sample(map[string]any{"corpus": e.name, "ops": opsStrings(e.ops), "failed": res.Fail != nil, "known": len(res.Known)})
+	})
+
+	// identical child tries (untagged values): evidence for known finding C08-K3 only
+	r.Cases("alias", r.Scale(100), func(c *vcommon.Case) {
+		ops, _ := genOps(c.R, 40)
+		for i := range ops {
+			if ops[i].K == OpCSet {
+				ops[i].Val = fmt.Sprintf("v%d", c.R.Intn(2))
+			}
+		}
+		res := report(c, ops, 0, false)
+		if res.AliasPossible {
+			c.Count("alias_histories", 1)
+		}
 	})
 
 	r.Cases("hist", r.Scale(3000), func(c *vcommon.Case) {
